@@ -95,6 +95,48 @@ func unseats(op histOp, held dm.Path) bool {
 		return prefixOf(op.Path)
 	case "delete2":
 		return prefixOf(op.Path) || prefixOf(op.Path2)
+	case "upsert":
+		// an upsert that names another entry of a list above the held node may make that list grow, and a list kept as
+		// a Go slice of struct values then moves the very storage the kept selection stands on (nothing is promised
+		// about a selection whose ancestors moved); entries added to the held node's own list are what is tested
+		var cur interface{} = op.Src
+		for i, seg := range held {
+			t, isTree := cur.(dm.Tree)
+			if !isTree {
+				return false
+			}
+			v, has := t[seg.Name]
+			if !has {
+				return false
+			}
+			rows, isList := v.([]interface{})
+			if !isList {
+				cur = v
+				continue
+			}
+			if i == len(held)-1 {
+				return false
+			}
+			var next interface{}
+			for _, r := range rows {
+				rt, _ := r.(dm.Tree)
+				same := rt != nil
+				for _, kv := range seg.Key {
+					found := false
+					for _, x := range rt {
+						if s, isStr := x.(string); isStr && s == kv {
+							found = true
+						}
+					}
+					same = same && found
+				}
+				if !same {
+					return true
+				}
+				next = rt
+			}
+			cur = next
+		}
 	}
 	return false
 }
